@@ -1,0 +1,38 @@
+//go:build verif
+// +build verif
+
+package raft
+
+// Verification hooks (build tag `verif`). Add-only.
+
+import (
+	"context"
+
+	pb "github.com/marekgalovic/anndb/protobuf"
+
+	etcdRaft "github.com/coreos/etcd/raft"
+)
+
+// VerifCampaign makes this replica start an election now instead of waiting for the election timeout.
+func (this *RaftGroup) VerifCampaign() error { return this.raft.Campaign(this.ctx) }
+
+// VerifStatus exposes the raft library's status (term, vote, commit, applied, lead, progress).
+func (this *RaftGroup) VerifStatus() etcdRaft.Status { return this.raft.Status() }
+
+// VerifSnapshotNow runs the periodic snapshot attempt immediately with the given skip distance.
+// It must only be called while the group's loop is quiescent (no entries being applied).
+func (this *RaftGroup) VerifSnapshotNow(lastAppliedIdx, skip uint64) error {
+	return this.trySnapshot(lastAppliedIdx, skip)
+}
+
+// VerifSetPeerClient injects an in-memory transport client for a peer node.
+func (this *RaftTransport) VerifSetPeerClient(nodeId uint64, c pb.RaftTransportClient) {
+	this.nodeClientsMu.Lock()
+	defer this.nodeClientsMu.Unlock()
+	this.nodeClients[nodeId] = c
+}
+
+// VerifReceive delivers a message as the gRPC service would.
+func (this *RaftTransport) VerifReceive(ctx context.Context, req *pb.RaftMessage) (*pb.EmptyMessage, error) {
+	return this.Receive(ctx, req)
+}
